@@ -10,6 +10,8 @@ type StackN<const N: usize, const S: usize> = any_vec::mem::StackN<N, S>;
 
 #[cfg(feature = "lib_alloc")]
 anyvec_pbt::configs! {
+    Tr0a16_StackA: Tr0a16, Stack<16>,       dyn Cloneable, G_ALIGN;
+    Tr16_StackA:   Tr16,   Stack<64>,       dyn Cloneable, G_ALIGN;
     Tr0_Multi:    Tr0,    Multi, dyn Cloneable, G_LAYOUT | G_FAULT;
     Tr12_Multi:   Tr12,   Multi, dyn Cloneable, G_LAYOUT;
     Pl1_Multi:    Pl1,    Multi, dyn Cloneable, G_LAYOUT | G_CORE;
@@ -22,6 +24,8 @@ anyvec_pbt::configs! {
 
 #[cfg(not(feature = "lib_alloc"))]
 anyvec_pbt::configs! {
+    Tr0a16_StackA: Tr0a16, Stack<16>,       dyn Cloneable, G_ALIGN;
+    Tr16_StackA:   Tr16,   Stack<64>,       dyn Cloneable, G_ALIGN;
     Tr8_Stack:    Tr8,    Stack<40>,      dyn Cloneable, G_BACKEND | G_STACK | G_FAULT;
     Tr24_StackN:  Tr24,   StackN<3, 72>,  dyn Cloneable, G_BACKEND | G_STACK;
 }
